@@ -16,5 +16,22 @@ func main() {
 	for d := 1; d <= 4; d++ {
 		groups = append(groups, vlib.Group{Name: fmt.Sprintf("kd-stock-d%d", d), Gen: genKD(d, true)})
 	}
+	for d := 1; d <= 4; d++ {
+		groups = append(groups, vlib.Group{Name: fmt.Sprintf("vp-d%d", d), Gen: genVP(d)})
+	}
+	groups = append(groups,
+		vlib.Group{Name: "index-empty", Gen: genEmpty},
+		vlib.Group{Name: "kd-struct", Gen: genKDStruct},
+		vlib.Group{Name: "vp-struct", Gen: genVPStruct},
+		vlib.Group{Name: "bh-plane", Gen: genBH(2)},
+		vlib.Group{Name: "bh-volume", Gen: genBH(3)},
+		vlib.Group{Name: "bh-struct", Gen: genBHStruct},
+		vlib.Group{Name: "boxes", Gen: genBoxes},
+		vlib.Group{Name: "hilbert", Gen: genHilbert},
+		vlib.Group{Name: "combin-combinations", Gen: genCombinations},
+		vlib.Group{Name: "combin-permutations", Gen: genPermutations},
+		vlib.Group{Name: "combin-cartesian", Gen: genCartesian},
+		vlib.Group{Name: "combin-numbers", Gen: genNumbers},
+	)
 	vlib.Main("C20", groups...)
 }
